@@ -8,7 +8,7 @@ tier = sys.argv[3] if len(sys.argv) > 3 else 'quick'
 extra = sys.argv[4:]
 wt = f'/tmp/wt_{pid}'
 src = {n: f'{wt}/seeded_{k}{s}' for n, s in (('patch', '.diff'), ('demo', '_demo.py'), ('meta', '_meta.txt'))}
-dst = f'/verif/seeded/{pid}-{k}'
+dst = f"/verif/seeded/{pid}-{int(k) + int(os.environ.get('SEED_OFFSET', 0))}"
 if not os.path.exists(src['patch']) and os.path.exists(f'{dst}/patch.diff'):
     src = {'patch': f'{dst}/patch.diff', 'demo': f'{dst}/demo.py', 'meta': None}
 d = tempfile.mkdtemp(prefix='seed_', dir='/tmp')
@@ -35,7 +35,7 @@ try:
         if p.returncode not in (0, 1):
             res[cid]['output_tail'] = p.stdout[-800:] + p.stderr[-400:]
     valid = suite.returncode == 0 and demo_mut.returncode != 0 and demo_clean.returncode == 0
-    meta = {'property': pid, 'index': int(k), 'suite_passes_with_change': suite.returncode == 0,
+    meta = {'property': pid, 'index': int(k) + int(os.environ.get('SEED_OFFSET', 0)), 'suite_passes_with_change': suite.returncode == 0,
             'demo_exit_with_change': demo_mut.returncode, 'demo_exit_without_change': demo_clean.returncode, 'valid_seed': valid,
             'needs': open(src['meta']).read() if src['meta'] and os.path.exists(src['meta']) else json.load(open(f'{dst}/meta.json')).get('needs', ''),
             'ran': f'scratch copy of /repo + patch; pytest; demo with/without; ./check {" ".join([pid] + extra)} --tier {tier} with VERIF_REPO=<copy>',
